@@ -323,7 +323,8 @@ OPS = {
             [("unfragment", 400, 20000, 25), ("fragment+unfragment", 300, 10000, 20)],
             "TLC enumerates every list (any order) of <=N cues on grid 0..G with NT texts, and for the inverse law every "
             "start-ordered list free of touching same-text cues x f; random driver beyond. Non-trivial = the call merged "
-            "at least two cues, or (inverse law) Fragment cut at least one cue."),
+            "at least two cues, or (inverse law) Fragment cut at least one cue. Even text atoms are two-line texts whose characters equal "
+            "the odd atom before them (texts that differ in line structure only)."),
     "C12": ("MC_C12.cfg",
             [("order", dict(GEN_G=2, GEN_N=3, GEN_NT=1), dict(GEN_G=3, GEN_N=4, GEN_NT=1)),
              ("merge", dict(GEN_G=1, GEN_N=2, GEN_NT=1), dict(GEN_G=2, GEN_N=2, GEN_NT=1))],
@@ -782,13 +783,14 @@ def check_ssa(pid, tier, seed, scratch, replay):
         gens=[(dict(GEN_FAM="S"), 2, 2, None), (dict(GEN_FAM="E"), 6, 6, None), (dict(GEN_FAM="F"), 3, 3, None), (dict(GEN_FAM="I"), 1, 1, None),
               (dict(GEN_FAM="S", GEN_WIDE=1), 0, 4, "thorough"), (dict(GEN_FAM="E", GEN_WIDE=1), 0, 16, "thorough"), (dict(GEN_FAM="F", GEN_WIDE=1), 0, 4, "thorough")],
         nrand=(0, 0), per_jvm=2000,
-        rule=("TLC enumerates ground truths of three families - S: one style over Name + 4 typed columns (string, float, colour, "
+        rule=("TLC enumerates ground truths of four families - S: one style over Name + 4 typed columns (string, float, colour, "
               "boolean) x all 120 permutations of the Format line x v4/v4+ x decimal/&H colours; E: one Dialogue over Layer|Marked, "
               "Style, Name, Effect x all 24 column permutations (Text last) x 6 text structures (runs at {..} blocks, \\N / \\n "
               "lines, commas in text) x '*'-prefixed style names x two instants; F: two styles over all 24 (v4: 18) columns with "
               "different attribute subsets, full event rows, 3 column orders, script info subsets, ';' comments, unknown section + "
-              "junk lines, LF/CRLF/CR, BOM - and every rendering; documents are concretised (section-name spellings, H: vs HH: "
-              "hours) and read by ReadFromSSA; each truth is written by WriteToSSA, lexed by the harness's Format-driven lexer, "
+              "junk and comment-like lines, Picture / Command event lines, LF/CRLF/CR, BOM; I: each of the 14 script-info fields alone and "
+              "all together - and every rendering; neighbouring columns of one type carry different values; documents are concretised (section-name spellings, H: vs HH: "
+              "hours) and read by ReadFromSSA and by ReadFromSSAWithOptions with zero-valued options (same result required); each truth is written by WriteToSSA, lexed by the harness's Format-driven lexer, "
               "decoded by the TLA+ reference decoder, re-read by the library and written a second time (byte fixpoint). "
               "Non-trivial = distinct (truth, rendering, pool)."),
         assumptions=["Text is the last column of the event Format (format description); only the first run of a line may lack an override block",
@@ -807,13 +809,16 @@ def check_ttml(pid, tier, seed, scratch, replay):
         gens=[(dict(GEN_FAM="T"), 5, 5, None), (dict(GEN_FAM="B"), 1, 1, None), (dict(GEN_FAM="S"), 6, 6, None), (dict(GEN_FAM="L"), 1, 1, None), (dict(GEN_FAM="A"), 1, 1, None),
               (dict(GEN_FAM="T", GEN_WIDE=1), 0, 8, "thorough"), (dict(GEN_FAM="B", GEN_WIDE=1), 0, 2, "thorough"), (dict(GEN_FAM="S", GEN_WIDE=1), 0, 8, "thorough")],
         nrand=(0, 0), per_jvm=1500,
-        rule=("TLC enumerates ground truths of three families - T: one paragraph x 6 instant pairs x frameRate {0,24,25,30} x tickRate "
+        rule=("TLC enumerates ground truths of five families - T: one paragraph x 6 instant pairs x frameRate {0,24,25,30} x tickRate "
               "{0,1000,90000,10^7} with begin and end each written in every equivalent time-expression syntax (clock with 0-3 fraction "
               "digits, clock with frames, offsets in h, m, s, ms, f, t); B: line structures with <br/> between or inside spans, bare "
               "text vs spans, styled runs, one or two paragraphs; S: every style forest over <=3 styles (incl. shared parents), 0-2 regions "
               "with style references, cue / run references, inline tts:* attributes, language (mapped / unmapped) / title / copyright, "
-              "indentation on/off, prefixed vs unprefixed attributes. Documents are concretised as XML (3 text pools with & < > quotes, "
-              "non-BMP) and read by ReadFromTTML; each truth is written by WriteToTTML with 4 indent options, parsed by the harness with "
+              "indentation on/off, prefixed vs unprefixed attributes; L: every language the library maps and one it does not; A: each of "
+              "the 24 tts:* attributes alone and next to its neighbour, on a style / region / paragraph / run; tick counts beyond 32 bits "
+              "are written out in full (unit T of the model). Documents are concretised as XML (4 text pools with & < > quotes, non-BMP, "
+              "one-character runs) and read by ReadFromTTML; each truth is written by WriteToTTML with 4 indent options and once with its "
+              "definitions stored under map keys that differ from their IDs, parsed by the harness with "
               "encoding/xml's token stream, decoded by the TLA+ reference decoder (time expressions resolved in 32-bit-safe exact "
               "arithmetic) and re-read by the library. Non-trivial = distinct (truth, rendering, pool)."),
         assumptions=["instants may differ by one nanosecond from the exact value (the library computes in float64)",
@@ -836,7 +841,8 @@ def check_stl(pid, tier, seed, scratch, replay):
               "code and per diacritic x letter pair (13 x 52, composable or not; table generated from the standard by "
               "tools/gen_stl_tables.py, NFC via unicodedata); T: every frame number x selected h:m:s x 25/30 fps x programme-start "
               "offsets; R: rows / runs / italic-underline-boxing code sequences, justification codes, vertical positions; X: teletext "
-              "display standards 1 and 2 with boxed rows, colour and double-height codes; M: GSI metadata subsets, both frame rates, "
+              "display standards 1 and 2 with colour and double-height codes, each block under four box patterns (all rows boxed, none, "
+              "the odd ones, the even ones); M: GSI metadata subsets incl. every text field filled to its last byte, both frame rates, "
               "reserved user-data blocks interleaved. Each file is packed by the harness (fixed-offset GSI/TTI packer), read by "
               "ReadFromSTL with and without the ignore-programme-start option; each truth is written by WriteToSTL with STL metadata, "
               "without metadata and with metadata inherited from another format, unpacked by the harness, decoded by the TLA+ "
@@ -862,7 +868,8 @@ def check_writers(pid, tier, seed, scratch, replay):
     rep.rule = ("TLC model-checks order independence of the two map-ranging writers (SSA Format line, WebVTT STYLE block) for every "
                 "style map of <=3 styles x attribute subsets x every pair of map orders, and enumerates the lists to write: 0..2 styles "
                 "(quick; attribute subsets of 2, thorough 3 attributes) x CSS line sets x 0/2/3 regions with different attribute sets "
-                "x metadata present/absent; the driver adds seeded lists with 3..6 styles and regions. Every list is written by each "
+                "x metadata present/absent; the driver adds seeded lists with 3..6 styles and regions and names the styles after one of three "
+                "schemes (s1..s6; Default / Alt / Caption ...; mixed case around 'default'). Every list is written by each "
                 "of the 5 writers repeatedly in the same process, rebuilt with another map insertion order, written in 2 (thorough 4) "
                 "further processes (fresh hash seeds), under another clock when the metadata supplies the STL dates, and - for some "
                 "lists - in all 120 orders of the 5 writers on one list object. Events carry the digest of the bytes and deep-snapshot "
@@ -973,7 +980,10 @@ def check_conc(pid, tier, seed, scratch, replay):
                 "also 2 calls x 4 steps) which the harness forces on the real code through the verif hook gate (a call blocks at every "
                 "instrumented reader-loop site until the schedule lets it proceed), for seeded combinations of operations out of a "
                 "catalogue of all readers on the repository samples, the 5 writers and a chain of all transformations, each on private "
-                "data. Free-running scenarios: 2..32 goroutines, randomised start, GOMAXPROCS 2/4/16, built with -race. Every call's "
+                "data. Free-running scenarios, built with -race: first one homogeneous pass per kind of operation (each reader, each writer, "
+                "the transformations) in which every operation of the kind - the repository's samples, documents rendered from the C01-C06 "
+                "generators, conversions of them by every writer, Unicode text classes - is dealt to 16 goroutines; then random mixes on "
+                "2..32 goroutines, randomised start, GOMAXPROCS 2/4/16. Every call's "
                 "result digest is compared by TLC with its alone-run digest, the package-table fingerprint (hook VerifTablesFingerprint) "
                 "must stay constant, and the race detector's log must be empty. Non-trivial = distinct (operation, schedule/scenario).")
     rep.assumptions = ["absence of data races is the Go race detector's observation on the executed schedules, not a proof",
@@ -1147,7 +1157,9 @@ def check_session(pid, tier, seed, scratch, replay):
                 "operation sequence of length <=1 over 11 parametrised operations x both entry points x GEN_ND documents; every letter-case "
                 "spelling of every extension; unsupported extensions on either side, lists emptied by the operations, invalid tool flags; "
                 "per pair and entry point GEN_NS seeded sequences of length 2..4. Source documents: the repository's samples plus documents "
-                "rendered from the C01-C06 generators (styled, metadata-bearing, teletext streams). Library histories call astisub.Open, the "
+                "rendered from the C01-C06 generators (styled, metadata-bearing, teletext streams) and lists with touching same-text / "
+                "unordered / nested cues written by every writer. Library histories call astisub.Open (also with the STL option that "
+                "ignores the programme start), the "
                 "methods and Subtitles.Write; tool histories spawn the built astisub binary once per operation, chained through files of "
                 "the destination format. Every step logs the list in memory / the written file as re-read by the library; "
                 "TraceSession replays the log through Session's machine (each operation against Ops' specification, each write against "
